@@ -235,8 +235,8 @@ def gen_unit(u):
 
 QUICK = [(["id"], 3, 1), (["id"], 4, 0), (["sum", "max"], 3, 0), (["sum"], 2, 1), (["add", "subtract"], 2, 0), (["add"], 1, 1), (["dot"], 3, 0), (["get_at"], 2, 0), (["add_at", "set_at"], 2, 0), (["flip", "argmax", "sort", "softmax"], 3, 0),
          (["flip", "argmax"], 2, 1)]
-THOROUGH = [(["id"], 3, 2), (["id"], 4, 0), (["sum", "max", "mean"], 3, 1), (["add", "subtract", "where"], 2, 1), (["add"], 3, 0), (["dot"], 3, 1), (["get_at"], 3, 0), (["get_at"], 2, 1), (["add_at", "set_at"], 2, 1),
-            (["flip", "argmax", "sort", "softmax", "roll", "argsort"], 3, 1)]
+THOROUGH = [(["id"], 3, 1), (["id"], 4, 0), (["id"], 2, 2), (["sum", "max", "mean"], 3, 1), (["add", "subtract"], 2, 1), (["add"], 3, 0), (["where"], 1, 1), (["dot"], 3, 0), (["dot"], 2, 1),
+            (["get_at"], 3, 0), (["get_at"], 1, 1), (["add_at", "set_at"], 2, 0), (["add_at"], 1, 1), (["flip", "argmax", "sort", "softmax", "roll", "argsort"], 3, 1)]
 
 
 def run(ctx):
